@@ -34,6 +34,7 @@ Definition eWriteClosed : N := 3.    (* errWriteClosed *)
 Definition eCloseSent : N := 4.      (* ErrCloseSent (sticky writeErr) *)
 Definition eOther : N := 5.          (* flate tail check, invalid level *)
 Definition eExtraClient : N := 6.    (* "extra used in client mode" (sticky) *)
+Definition eTransport : N := 7.      (* the transport's Write failed (sticky) *)
 Definition eNoHandle : N := 9.       (* harness convention: no usable writer handle *)
 
 (* ---- list helpers (structural, linear) ---- *)
@@ -127,16 +128,19 @@ Record mws := mkM {
   cflag : bool;         (* messageWriter.compress *)
   keys : list bytes;    (* oracle: mask keys newMaskKey will return *)
   out : list bytes;     (* transport writes, most recent first *)
-  werrc : N             (* sticky c.writeErr: 0 none, else its code *)
+  werrc : N;            (* sticky c.writeErr: 0 none, else its code *)
+  wbudget : option N    (* fault injection: Some k = k more transport writes succeed, the next one
+                           fails (net.Conn.Write returns an error, nothing is written); None = never *)
 }.
 
-Definition set_hdr w h := mkM h (rbuf w) (pos w) (ftype w) (cflag w) (keys w) (out w) (werrc w).
-Definition set_buf w rb p := mkM (hdr w) rb p (ftype w) (cflag w) (keys w) (out w) (werrc w).
-Definition set_ftype w t := mkM (hdr w) (rbuf w) (pos w) t (cflag w) (keys w) (out w) (werrc w).
-Definition set_cflag w c := mkM (hdr w) (rbuf w) (pos w) (ftype w) c (keys w) (out w) (werrc w).
-Definition set_keys w k := mkM (hdr w) (rbuf w) (pos w) (ftype w) (cflag w) k (out w) (werrc w).
-Definition set_out w o := mkM (hdr w) (rbuf w) (pos w) (ftype w) (cflag w) (keys w) o (werrc w).
-Definition set_werrc w e := mkM (hdr w) (rbuf w) (pos w) (ftype w) (cflag w) (keys w) (out w) e.
+Definition set_hdr w h := mkM h (rbuf w) (pos w) (ftype w) (cflag w) (keys w) (out w) (werrc w) (wbudget w).
+Definition set_buf w rb p := mkM (hdr w) rb p (ftype w) (cflag w) (keys w) (out w) (werrc w) (wbudget w).
+Definition set_ftype w t := mkM (hdr w) (rbuf w) (pos w) t (cflag w) (keys w) (out w) (werrc w) (wbudget w).
+Definition set_cflag w c := mkM (hdr w) (rbuf w) (pos w) (ftype w) c (keys w) (out w) (werrc w) (wbudget w).
+Definition set_keys w k := mkM (hdr w) (rbuf w) (pos w) (ftype w) (cflag w) k (out w) (werrc w) (wbudget w).
+Definition set_out w o := mkM (hdr w) (rbuf w) (pos w) (ftype w) (cflag w) (keys w) o (werrc w) (wbudget w).
+Definition set_werrc w e := mkM (hdr w) (rbuf w) (pos w) (ftype w) (cflag w) (keys w) (out w) e (wbudget w).
+Definition set_budget w b := mkM (hdr w) (rbuf w) (pos w) (ftype w) (cflag w) (keys w) (out w) (werrc w) b.
 
 Definition buffered (w : mws) : bytes := concat (rev (rbuf w)).
 
@@ -159,13 +163,29 @@ Definition put_at (site : N) (i : N) (vs : bytes) (h : bytes) : res bytes :=
 Definition pop_key (ks : list bytes) : bytes * list bytes :=
   match ks with [] => ([0;0;0;0], []) | k :: t => (k, t) end.
 
-(* c.write(frameType, deadline, bufs...) : every non-empty buffer is one transport write *)
+(* c.write(frameType, deadline, bufs...) : every non-empty buffer is one transport write; a
+   failing one is fatal: writeFatal makes the error sticky, the remaining buffers are not written *)
+Fixpoint faulty_writes (w : mws) (k : N) (bufs : list bytes) : mws * N :=
+  match bufs with
+  | [] => (set_budget w (Some k), eOK)
+  | b :: r =>
+      if is_nil b then faulty_writes w k r
+      else if k =? 0 then (set_werrc (set_budget w (Some 0)) eTransport, eTransport)
+      else faulty_writes (set_out w (b :: out w)) (N.pred k) r
+  end.
 Definition conn_write (w : mws) (t : N) (bufs : list bytes) : mws * N :=
   if negb (werrc w =? 0) then (w, werrc w)
   else
-    let o := fold_left (fun o b => if is_nil b then o else b :: o) bufs (out w) in
-    let w1 := set_out w o in
-    (if t =? opClose then set_werrc w1 eCloseSent else w1, eOK).
+    match wbudget w with
+    | None =>
+        let o := fold_left (fun o b => if is_nil b then o else b :: o) bufs (out w) in
+        let w1 := set_out w o in
+        (if t =? opClose then set_werrc w1 eCloseSent else w1, eOK)
+    | Some k =>
+        let (w1, e) := faulty_writes w k bufs in
+        if negb (e =? 0) then (w1, e)
+        else (if t =? opClose then set_werrc w1 eCloseSent else w1, eOK)
+    end.
 
 (* flushFrame(final, extra) *)
 Definition flush_frame (c : cfg) (w : mws) (final : bool) (extra : bytes) : res (mws * N) :=
@@ -393,7 +413,7 @@ Definition do_control (c : cfg) (s : cst) (t : N) (p : bytes) : cst * N :=
         (st_mw s m1, e).
 
 (* PreparedMessage.frame(key): WriteMessage on a fresh connection with the default buffer *)
-Definition mws0 (ks : list bytes) : mws := mkM (repeat 0 (N.to_nat maxHdr)) [] maxHdr 0 false ks [] 0.
+Definition mws0 (ks : list bytes) : mws := mkM (repeat 0 (N.to_nat maxHdr)) [] maxHdr 0 false ks [] 0 None.
 Definition cst0 (m : mws) (cp : bool) (l : Z) : cst := mkS m false 0 false false tw0 cp true l [].
 
 Definition prepared_frame (is_srv cp : bool) (l : Z) (t : N) (p : bytes) (ks : list bytes)
@@ -753,10 +773,19 @@ Fixpoint sx_pms (l : list sx) : list (N * bytes) :=
 Definition init_cst (cp : bool) (ks : list bytes) : cst :=
   cst0 (mws0 ks) cp websocket_defaultCompressionLevel.
 
+(* harness configuration (8th element of a session case): the sixth entry, if present and
+   non-negative, is the number of transport writes after which the writer's transport fails *)
+Definition cfg_budget (cfg : sx) : option N :=
+  match cfg with
+  | SL [_; _; _; _; _; SZ f] => if (f <? 0)%Z then None else Some (Z.to_N f)
+  | _ => None
+  end.
+Definition with_budget (s : cst) (b : option N) : cst := st_mw s (set_budget (mw s) b).
+
 Definition run_session (is_srv : bool) (b : N) (cp : bool) (pms : list (N * bytes)) (ops : list sx)
-           (ks : list bytes) : sx :=
+           (ks : list bytes) (bud : option N) : sx :=
   let c := mkC is_srv (blen_of is_srv b) in
-  match run_ops c pms (init_cst cp ks) ops [] with
+  match run_ops c pms (with_budget (init_cst cp ks) bud) ops [] with
   | Ok (s, codes) => s_ok [SL (map sN codes); sx_wire (wire_of s)]
   | Err e => s_err e
   | Panic _ => s_panic
@@ -779,14 +808,14 @@ Definition run_c13 (c : sx) : sx :=
       | HAccept acc proto z => s_ok [SZ 0; SB acc; SB proto; sbool z]
       end
   | SL [SZ 5; SB key] => s_ok [SB (compute_accept_key key)]
-  | SL [SZ 0; SZ r; SZ b; SZ cp; SL pms; SL ops; SL ks; _] =>
-      run_session (zb r) (Z.to_N b) (zb cp) (sx_pms pms) ops (sx_chunks ks)
-  | SL [SZ 0; SZ r; SZ b; SZ cp; SL pms; SL ops; SL ks; _; SB _] =>
+  | SL [SZ 0; SZ r; SZ b; SZ cp; SL pms; SL ops; SL ks; cfg] =>
+      run_session (zb r) (Z.to_N b) (zb cp) (sx_pms pms) ops (sx_chunks ks) (cfg_budget cfg)
+  | SL [SZ 0; SZ r; SZ b; SZ cp; SL pms; SL ops; SL ks; cfg; SB _] =>
       (* eighth element: harness-only configuration (well-formedness flag, how the transport
          segments reads, how many leading operations the server runs inside the HTTP handler,
-         greetings); ninth element: padding the harness adds to cases with long wires (keeps them out of the
-         kernel-evaluated sample, whose literals must stay small) *)
-      run_session (zb r) (Z.to_N b) (zb cp) (sx_pms pms) ops (sx_chunks ks)
+         greetings, fault injection); ninth element: padding the harness adds to cases with long
+         wires (keeps them out of the kernel-evaluated sample, whose literals must stay small) *)
+      run_session (zb r) (Z.to_N b) (zb cp) (sx_pms pms) ops (sx_chunks ks) (cfg_budget cfg)
   | SL [SZ 1; SB key; SZ p; SZ align; SB data] =>
       let (m, p') := mask_words (Z.to_N align) key (Z.to_N p) data in s_ok [SB m; sN p']
   | SL [SZ 2; SL chunks] =>
